@@ -180,6 +180,29 @@ CLAIMED = {
         "abstract evaluation with guard-derived reasoning per leaf; def-use/statement-order rules over the month loop",
         "other",
     ),
+    "C08": (
+        "Decides, for symbolic inputs, the closed form of each supply builder: crop seasonal cycle entry j = seasonality share of "
+        "calendar month (May-1+j) mod 12 x annual yield x 4e6/1e9; crop schedule blocks 8,12x8,16 and grass blocks 8,12,...,16 "
+        "(every horizon 48..120) carry year k's ratio; month i reads cycle i mod 12 and reduction i; fish, stored food, "
+        "single-cell protein and cellulosic sugar equal the documented product of baseline, percent, waste factors; each "
+        "delayed series has exactly delay + lead-in zero months, a non-decreasing ramp, its cap, and is cut to NMONTHS from a "
+        "long-enough list; seaweed monthly growth x LP ledger factor = (1 + d/100)^30; world-scale baseline literals agree in "
+        "unit with the country table. Finiteness/non-negativity for concrete data and the feed/biofuel demand series (C03) are not decided here.",
+        "Seasonality shares, ratios, baselines non-negative; delays are non-negative integers. " + TRUST,
+        "abstract evaluation over run-length array models with exact rational fills; closed-form comparison; table cross-check",
+        "other",
+    ),
+    "C09": (
+        "Decides, on both settings of the relocation flag: every stored piece of the outdoor series is grown[months] x (1 - "
+        "greenhouse share[same months]) with share = this run's greenhouse area / total cropland, production = that x (1 - "
+        "distribution waste); greenhouse share is zero for delay + 5 months then a non-decreasing ramp from 0 to the "
+        "configured multiplier, identically zero without greenhouses; relocated month = m*r (r>1) or m*r^e guarded by the "
+        "in-loop assertion, expanded area multiplies by a ramp starting at 1 and only for ratio > 1; no rounding / int / "
+        "floor call or integer-typed array store lies on the path. The inequality r^e >= r needs the exponent in (0,1] (data).",
+        "Relocation exponent in (0,1]; greenhouse multiplier in [0,1]. " + TRUST,
+        "all-paths abstract evaluation of the production statement; run-length array model; syntactic quantisation rule with reaching stores",
+        "other",
+    ),
 }
 
 NOT_APPLICABLE = {
